@@ -95,13 +95,14 @@ def gen_pattern(rng, depth, multiline=None):
                 else:
                     items.append(t)
         lines.append(items)
-    # line rules: continuation lines do not start with . [ * ; leading spaces profile with minimum 0
+    # line rules: continuation lines do not start with . [ * ; leading spaces profile with minimum 0 — or, sometimes, with every
+    # continuation line indented (well-formed only as a top-level value in block form: Render.v needs_block; the model's wf flag filters)
     indents = [0] * nlines
     if nlines > 1:
         cont = [i for i in range(1, nlines) if lines[i]]
         for i in cont:
             indents[i] = rng.choice([0, 0, 1, 2, 4])
-        if cont and min(indents[i] for i in cont) > 0:
+        if cont and min(indents[i] for i in cont) > 0 and rng.random() < 0.4:
             indents[rng.choice(cont)] = 0
     els = []
     cur = b''
@@ -239,6 +240,30 @@ def render_all(trees, rng, per_tree):
     return cases, notwf
 
 
+BLANK_LINE_SPACES = False   # switched on together with the repair of D33
+
+
+def blank_line_variants(rng, cases, n):
+    """A layout freedom that Render.v does not enumerate: a blank line is `blank_inline? line_end`, so ANY number of spaces on a
+    line that holds nothing else is insignificant, wherever the line is (between entries, inside a multi-line pattern, LF or
+    CRLF).  Take rendered sources with blank lines, put 1..9 spaces on some of them, expect the same tree."""
+    out = []
+    pool = [c for c in cases if b'\n\n' in sexp.loads(c)[1] or b'\n \n' in sexp.loads(c)[1] or b'\r\n\r\n' in sexp.loads(c)[1]]
+    rng.shuffle(pool)
+    for c in pool[:n]:
+        x = sexp.loads(c)
+        lines = x[1].split(b'\n')
+        changed = False
+        for i in range(len(lines) - 1):
+            body = lines[i][:-1] if lines[i].endswith(b'\r') else lines[i]
+            if body.strip(b' ') == b'' and rng.random() < 0.7:
+                lines[i] = b' ' * rng.choice([1, 2, 3, 4, 5, 6, 8, 9]) + lines[i].lstrip(b' ')
+                changed = True
+        if changed:
+            out.append(sexp.dumps([b'parse_all', b'\n'.join(lines), x[2]]))
+    return out
+
+
 def generate(rng, tier):
     yield ('reference-fixtures', reference_cases())
     n = 2500 if tier == 'quick' else 120000
@@ -249,6 +274,8 @@ def generate(rng, tier):
     cases, notwf2 = render_all(trees, rng, 1)
     generate.not_wf = notwf + notwf2
     yield ('random-trees-x-layouts', cases)
+    if BLANK_LINE_SPACES:
+        yield ('spaces-on-blank-lines', blank_line_variants(rng, cases, 600 if tier == 'quick' else 20000))
 
 
 
